@@ -23,7 +23,7 @@ META = {
                    "internal TT(...) calls pass core lists, never a tensor (CTOR-ARG). Induction over call histories follows.",
     "assumptions": ["user code that assigns t.cores[k] directly is outside the public API", "torch reshape/einsum produce the "
                     "shapes they are asked for"],
-    "floors": {"FIELDS": 14, "ESTABLISH": 8, "PRESERVE": 10, "WHO-WRITES": 100, "CTOR-ARG": 60, "GETTER": 3},
+    "floors": {"E5-CHAIN": 600, "FIELDS": 8, "WHO-WRITES": 100, "CTOR-ARG": 60, "GETTER": 3},
 }
 from ..inline import inlined  # noqa: E402  (extract-method refactorings of the constructor / writers are read through)
 
@@ -698,15 +698,23 @@ def rule_getters(model: Model):
 def check(model: Model, tier: str):
     eng = Effects(model)
     obs = []
-    obs += rule_fields(model)
-    obs += rule_establish(model)
-    obs += rule_preserve(model)
+    from ..e5 import obligations as e5ob
+    sem = e5ob.for_property(model, "C05", tier)
+    # Establishment (constructor from a core list) and preservation (set_core, reduce_dims) are DECIDED by evaluating the real code on
+    # symbolic objects of order 1-3 (e5/scenarios8.py).  The structural reading of the same functions (ESTABLISH / PRESERVE / the
+    # read-of-__M part of FIELDS) is kept as a cross-reference for every order: where it cannot recognise the form of the code (a
+    # restructured constructor, flags instead of nested ifs) it says so as INFO and never as a verdict - unless the evaluation itself
+    # could not be carried out, in which case it is all there is.
+    sem_decides = bool(sem) and not any(o.status == ERROR for o in sem)
+    structural = rule_fields(model) + rule_establish(model) + rule_preserve(model)
+    for o in structural:
+        soft = o.rule in ("ESTABLISH", "PRESERVE") or (o.rule == "FIELDS" and ":read-__M:" in o.key)
+        if sem_decides and soft and o.status in (VIOLATED, ERROR):
+            o.status = INFO
+            o.detail = "structural reading inconclusive (the clause is decided by evaluation, E5 scenarios TT.__init__/set_core/reduce_dims): " + o.detail
+    obs += structural
     obs += rule_who_writes(model, eng)
     obs += rule_ctor_arg(model, eng)
     obs += rule_getters(model)
-    try:
-        from ..e5 import obligations as e5ob
-        obs += e5ob.for_property(model, "C05", tier)
-    except ImportError:
-        pass
+    obs += sem
     return obs, {"functions": sorted(f.short for f in model.functions.values())}
